@@ -36,6 +36,7 @@ type workerResult struct {
 	Samples    []Sample            `json:"samples"`
 	Internal   string              `json:"internal,omitempty"`
 	Capped     string              `json:"capped,omitempty"`
+	End        bool                `json:"end,omitempty"`
 }
 
 // Sample is a decoded execution kept for the evidence file.
